@@ -327,6 +327,7 @@ type WorldCfg struct {
 	AuthMethods    []auth.VerifyMethod
 	IP             string // listen IP, default 127.0.0.1
 	Wildcard       bool   // listen on every address (":port", dual-stack)
+	Multicast      bool   // offer multicast delivery (224.1.0.0/16)
 	ListenPacket   func(network, address string) (net.PacketConn, error)
 	Listen         func(network, address string) (net.Listener, error)
 	Handler        func(w *World, h *Handler) gortsplib.ServerHandler // optional wrapper restricting the handler set
@@ -405,6 +406,10 @@ func StartWorld(cfg WorldCfg) (*World, error) {
 		if cfg.TLS {
 			s.TLSConfig = &tls.Config{Certificates: []tls.Certificate{TLSCert()}}
 			w.Scheme = "rtsps"
+		}
+		if cfg.Multicast {
+			p := randomEvenPort()
+			s.MulticastIPRange, s.MulticastRTPPort, s.MulticastRTCPPort = "224.1.0.0/16", p, p+1
 		}
 		w.S = s
 		if err := s.Start(); err != nil {
